@@ -209,6 +209,12 @@ class Engine:
         return self.subst(body, sub)
 
     def src_at(self, s, i):
+        if s[0] == "revd":
+            from .models import shape_len
+            n = shape_len(self, s[1])
+            if isinstance(n, int) and i[0] == "int":
+                return self.src_at(s[1], ("int", n - 1 - i[1]))
+            return ("at", ("revd", s[1]), i)
         if s[0] == "range":
             lo = s[1]
             if lo == ("int", 0):
@@ -1415,6 +1421,8 @@ class Engine:
         init, step = info.init.get(c), info.step.get(c)
         if init is None or step is None:
             return None
+        if info.src is not None and info.src[0] == "revall":
+            return None         # built back to front: not the element-wise map in source order
         wrap = None
         base = init
         if base[0] == "arrayvec":
@@ -1473,6 +1481,8 @@ class Engine:
         result is the element-wise map of the index range (the initial contents are irrelevant)."""
         init, step = info.init.get(c), info.step.get(c)
         if init is None or step is None or info.src is None:
+            return None
+        if info.src[0] == "revall":
             return None
         if info.src[0] == "range" and info.src[1] != ("int", 0):
             return None
